@@ -37,7 +37,7 @@ class Report:
             self.discharged += 1
             if extracted is not None and sum(1 for s in self.samples if s.get('rule') == rule) < 4:
                 self.samples.append({'rule': rule, 'config': config, 'instance': key, 'at': site, 'extracted': extracted})
-        else:
+        elif not any(v['key'] == '%s:%s:%s' % (rule, config, key) for v in self.violations):
             self.violations.append({'key': '%s:%s:%s' % (rule, config, key), 'rule': rule, 'config': config,
                                     'instance': key, 'msg': msg, 'at': site, 'extracted': extracted})
         return ok
